@@ -2,7 +2,7 @@
 from math import inf
 
 from asyncio_taskpool import SimpleTaskPool, TaskPool
-from engine.prog import Interp, act, clip, drive, parts_product, select, site_of
+from engine.prog import Interp, act, clip, drive, parts_product, refine, select, site_of
 from engine.spec import Family
 from engine.world import Excluded, HarnessError, World
 
@@ -145,14 +145,14 @@ def families(tier):
             name="prog", fn="tpl_prog", params=P,
             pre=["size >= -1", "0 <= x1 < 4", "0 <= x2 < %d" % (na - 1), "a2 >= -1", "0 <= s2 <= 4",
                  "0 <= x3 < %d" % na, "a3 >= -1", "x4 == %d" % (na - 1), "a4 == 0", "t >= 0", "s2 == 0 or x3 == %d" % (na - 1)],
-            parts=parts_product(x1=range(4), x2=range(na - 1), s2=range(5)),
+            parts=refine(parts_product(x1=range(4), x2=range(na - 1), s2=range(5)), ["s2 == 0"], "x3", range(na)),
             twin_pre=["x1 == 0", "x2 == 2", "s2 == 0"], twin_args=[1, 0, 2, 0, 0, na - 1, 0, na - 1, 0, 5],
         ))
         fams.append(Family(
             name="simple", fn="tpl_simple", params=P,
             pre=["size >= -1", "x1 == 0", "0 <= x2 < %d" % (ns - 1), "a2 >= -1", "0 <= s2 <= 3",
                  "0 <= x3 < %d" % ns, "a3 >= -1", "x4 == %d" % (ns - 1), "a4 == 0", "t >= 0", "s2 == 0 or x3 == %d" % (ns - 1)],
-            parts=parts_product(x2=range(ns - 1), s2=range(4)),
+            parts=refine(parts_product(x2=range(ns - 1), s2=range(4)), ["s2 == 0"], "x3", range(ns)),
             twin_pre=["x2 == 2", "s2 == 0"], twin_args=[1, 0, 2, 0, 0, ns - 1, 0, ns - 1, 0, 5],
         ))
     return fams
